@@ -96,7 +96,9 @@ H(v2) == [k |-> "h", v2 |-> v2]
 \* comparisons of the first operand with 3/2: an integer-valued operand never equals it, strict and
 \* non-strict forms must be rounded differently
 HalfOps == {"lth", "leh", "eqh", "geh", "gth", "neh"}
-LogOps == HalfOps \cup
+\* conjunction / disjunction with a constant operand (folded by the converter's preprocessing)
+ConstOps == {"andc1", "andc0", "orc1", "orc0", "and3c"}
+LogOps == HalfOps \cup ConstOps \cup
           {"lt", "le", "eq", "ge", "gt", "ne", "and", "or", "not", "iff", "impl", "implelse", "forall", "exists",
            "alldiff", "nalldiff", "atleast", "atmost", "exactly", "natleast", "natmost", "nexactly", "eqmax", "ifeq"}
 LogExpr(op, sh) ==
@@ -104,6 +106,9 @@ LogExpr(op, sh) ==
       p == LArg(sh, 1) q == LArg(sh, 2) r == LArg(sh, 3)
       cnt == ON(59, <<p, q, r>>)
   IN CASE op = "lt" -> O2(22, a, b)  [] op = "le" -> O2(23, a, b)  [] op = "eq" -> O2(24, a, b)
+       [] op = "andc1" -> O2(21, p, N(1)) [] op = "andc0" -> O2(21, p, N(0))
+       [] op = "orc1" -> O2(20, p, N(1))  [] op = "orc0" -> O2(20, p, N(0))
+       [] op = "and3c" -> ON(70, <<p, N(1), q>>)
        [] op = "lth" -> O2(22, a, H(3)) [] op = "leh" -> O2(23, a, H(3)) [] op = "eqh" -> O2(24, a, H(3))
        [] op = "geh" -> O2(28, a, H(3)) [] op = "gth" -> O2(29, a, H(3)) [] op = "neh" -> O2(30, a, H(3))
        [] op = "ge" -> O2(28, a, b)  [] op = "gt" -> O2(29, a, b)  [] op = "ne" -> O2(30, a, b)
